@@ -234,7 +234,7 @@ inductive Stmt
   | funcBegin (n : Name) (vararg : Bool) (res : List Nat) (args : List Var)
   | vars (global : Bool) (vs : List (Nat × Name × Option Name))
   | insn (labs : List Nat) (code : Nat) (ops : List Op)
-  | funcEnd
+  | funcEnd (labs : List Nat)
   | eof
 deriving DecidableEq, Repr
 
@@ -352,7 +352,8 @@ def readKwStmt (cfg : Cfg) (tab : List Str) (labs : List Nat) (k : Kw) : P Stmt 
     let n ← readName tab "wrong func name"; noLabs labs
     let (va, res, args) ← readProto tab
     pure (.funcBegin n va res args)
-  | .endfunc => do noLabs labs; pure .funcEnd
+  | .endfunc =>
+    if cfg.endfuncLabels then pure (.funcEnd labs) else do noLabs labs; pure (.funcEnd [])
   | .export_ => do let n ← readName tab "wrong export name"; noLabs labs; pure (.export_ n)
   | .import_ => do let n ← readName tab "wrong import name"; noLabs labs; pure (.import_ n)
   | .forward => do let n ← readName tab "wrong forward name"; noLabs labs; pure (.forward_ n)
@@ -541,11 +542,12 @@ def applyStmt (st : RState) : Stmt → Except String RState
         .ok { st with func := some { f with insnsRev := insns' } }
       else .error "not found item"
     | _, _ => .error "insn outside function"
-  | .funcEnd =>
+  | .funcEnd labs =>
     match st.func, st.mod with
     | some f, some m =>
       let fn : Func := { name := f.name, vararg := f.vararg, res := f.res, args := f.args,
-                         locals := f.locals, globals := f.globals, insns := f.insnsRev.reverse }
+                         locals := f.locals, globals := f.globals,
+                         insns := (labs.reverse.map Insn.label ++ f.insnsRev).reverse }
       .ok { st with func := none, mod := some { m with itemsRev := .func fn :: m.itemsRev } }
     | _, _ => .error "endfunc without func"
   | .eof => .ok st
